@@ -56,6 +56,7 @@ Lemma issues_nonneg : forall l, 0 <= issues l. Proof. intros. unfold issues. lia
 Ltac unf := unfold step, register, cancel_timer, cancel_task, start_timer, finish_task, emit, set_requests, set_gen,
   set_handle, set_tasks, set_now, set_interval, upd, updn in *.
 Ltac proj := cbn [now gen interval requests has_timer tmo handle ntasks tasks log owner deadline status] in *.
+Ltac projg := cbn [now gen interval requests has_timer tmo handle ntasks tasks log owner deadline status].
 Ltac brk :=
   repeat match goal with
   | |- context [match ?x with _ => _ end] =>
@@ -66,7 +67,7 @@ Ltac brk :=
       | Z.ltb ?a ?b => destruct (Z.ltb_spec a b)
       | Z.leb ?a ?b => destruct (Z.leb_spec a b)
       | _ => let E := fresh "E" in destruct x eqn:E
-      end; proj
+      end; projg
   end.
 
 (* the log only grows, at the head *)
